@@ -4,7 +4,7 @@ import sys
 from . import clmul
 
 if __name__ == "__main__":
-    res = clmul.run(open(sys.argv[1]).read(), int(sys.argv[2]) if len(sys.argv) > 2 else 120000)
+    res = clmul.run(open(sys.argv[1]).read(), int(sys.argv[2]) if len(sys.argv) > 2 else 120000, sys.argv[3] if len(sys.argv) > 3 else None)
     for r in res:
         for f in r.get("failed", []):
             if not isinstance(f.get("model"), dict):
